@@ -295,7 +295,61 @@ def expr_guards(node, stop=None):
             break
         child = p
         p = getattr(p, "_parent", None)
+    fn = node
+    while fn is not None and not isinstance(fn, (ast.FunctionDef, ast.AsyncFunctionDef)):
+        fn = getattr(fn, "_parent", None)
+    if fn is not None:
+        out = [(_inline_named_tests(t, fn), pol) for t, pol in out]
     return out
+
+
+def _stores(fn):
+    """name -> number of places of `fn` (nested scopes included, to be safe) that bind it"""
+    cached = getattr(fn, "_sa_stores", None)
+    if cached is None:
+        cached = {}
+        for x in ast.walk(fn):
+            if isinstance(x, ast.Name) and isinstance(x.ctx, (ast.Store, ast.Del)):
+                cached[x.id] = cached.get(x.id, 0) + 1
+            elif isinstance(x, ast.arg):
+                cached[x.arg] = cached.get(x.arg, 0) + 1
+        try:
+            fn._sa_stores = cached
+        except Exception:
+            pass
+    return cached
+
+
+def _inline_named_tests(test, fn, depth=0):
+    """A test written through a named boolean (`is_text = isinstance(d, str)` ... `if code_quoted(d) or not is_text:`) is the
+    test itself: a name bound exactly once in the function, to a comparison / boolean combination / negation / call whose own
+    names are bound at most once, is replaced by what it is bound to.  Leaves are the original nodes (identity is kept); only
+    the `and` / `or` / `not` containers are rebuilt."""
+    if depth > 3:
+        return test
+    if isinstance(test, ast.BoolOp):
+        vals = [_inline_named_tests(v, fn, depth) for v in test.values]
+        if all(a is b for a, b in zip(vals, test.values)):
+            return test
+        new = ast.BoolOp(op=test.op, values=vals)
+        return ast.copy_location(new, test)
+    if isinstance(test, ast.UnaryOp) and isinstance(test.op, ast.Not):
+        inner = _inline_named_tests(test.operand, fn, depth)
+        if inner is test.operand:
+            return test
+        return ast.copy_location(ast.UnaryOp(op=test.op, operand=inner), test)
+    if isinstance(test, ast.Name) and isinstance(test.ctx, ast.Load):
+        st = _stores(fn)
+        if st.get(test.id) != 1:
+            return test
+        for a in ast.walk(fn):
+            if isinstance(a, ast.Assign) and len(a.targets) == 1 and isinstance(a.targets[0], ast.Name) and a.targets[0].id == test.id:
+                v = a.value
+                if isinstance(v, (ast.Compare, ast.BoolOp, ast.Call)) or (isinstance(v, ast.UnaryOp) and isinstance(v.op, ast.Not)):
+                    if all(st.get(n.id, 0) <= 1 for n in ast.walk(v) if isinstance(n, ast.Name)):
+                        return _inline_named_tests(v, fn, depth + 1)
+                return test
+    return test
 
 
 def _always_exits(block):
